@@ -1043,3 +1043,122 @@ def run(ctx):
                       file=edn.file, line=edn.line, witness="categories [datetime(2016,12,27,18,0)]: cache 42731.0, cell A2 42731.75")
     else:
         ctx.ok("R8.7", "datetime-label:time-part", sample={"cache_from": sorted(comps) or "whole label", "cell": "reduced" if cell_reduced else "label as given"})
+
+    _r88(ctx, prog, xm, wm, dm)
+
+
+# -- R8.8 ---------------------------------------------------------------------------------------------------
+MEMO_DECORATORS = {"lazyproperty", "cached_property", "functools.cached_property", "lru_cache", "functools.lru_cache", "cache", "functools.cache"}
+
+
+def _memoised(f):
+    for d in f.node.decorator_list:
+        d0 = d.func if isinstance(d, ast.Call) else d
+        if (dotted(d0) or "") in MEMO_DECORATORS:
+            return dotted(d0)
+    return None
+
+
+def _r88(ctx, prog, xm, wm, dm):
+    """Chart data objects are filled in after they are created (add_series, add_category, add_data_point ...), and one object may be
+    used for several charts or replace_data() calls.  What is derived from their content - the workbook blob, the references, the
+    XML - must therefore be computed when it is asked for: a memoised property that reads the content keeps the first answer, and
+    the workbook of a later chart no longer matches the ranges and cached values of its XML."""
+    ctx.rule("R8.8", "nothing derived from the (mutable) content of chart data is memoised")
+    mods = [m for m in (dm, xm, wm) if m is not None]
+    # fields of the chart-data classes that change after construction
+    mutable = {}   # class -> {field}
+    for c in dict.values(dm.classes):
+        for name, f in list(c.methods.items()) + list(c.setters.items()):
+            if name == "__init__":
+                continue
+            for n in ast.walk(f.node):
+                tgt = None
+                if isinstance(n, ast.Call) and isinstance(n.func, ast.Attribute) and n.func.attr in ("append", "extend", "insert", "add", "update", "pop", "remove", "clear") \
+                        and isinstance(n.func.value, ast.Attribute) and dotted(n.func.value.value) == "self":
+                    tgt = n.func.value.attr
+                elif isinstance(n, (ast.Assign, ast.AugAssign)):
+                    for t in (n.targets if isinstance(n, ast.Assign) else [n.target]):
+                        t0 = t.value if isinstance(t, ast.Subscript) else t
+                        if isinstance(t0, ast.Attribute) and dotted(t0.value) == "self":
+                            tgt = t0.attr
+                            if tgt:
+                                mutable.setdefault(c, set()).add(tgt)
+                if tgt:
+                    mutable.setdefault(c, set()).add(tgt)
+    ctx.count("mutable_chart_data_fields", sum(len(v) for v in mutable.values()))
+    # fields of the writer classes that hold the chart-data object: `Writer(self)` constructed inside a chart-data class
+    holders = {}   # writer class -> field name
+    for c in dict.values(dm.classes):
+        for f in c.methods.values():
+            for n in ast.walk(f.node):
+                if isinstance(n, ast.Call) and len(n.args) >= 1 and dotted(n.args[0]) == "self" and dotted(n.func):
+                    r = prog.resolve(dm, dotted(n.func))
+                    if hasattr(r, "methods"):
+                        for k in prog.mro(r):
+                            ini = k.methods.get("__init__") if hasattr(k, "methods") else None
+                            if ini is None or len(ini.params) < 2:
+                                continue
+                            for a in ast.walk(ini.node):
+                                if isinstance(a, ast.Assign) and isinstance(a.value, ast.Name) and a.value.id == ini.params[1] \
+                                        and isinstance(a.targets[0], ast.Attribute) and dotted(a.targets[0].value) == "self":
+                                    holders[r] = a.targets[0].attr
+                            break
+
+    def family(c):
+        return [k for k in prog.all_classes() if c in prog.mro(k) or k in prog.mro(c)]
+
+    def reads_content(f, seen, depth=0):
+        """(description) of a read of mutable chart-data content reachable from f through its own object, or None"""
+        if f in seen or depth > 4:
+            return None
+        seen.add(f)
+        cls = f.cls
+        fam = family(cls) if cls is not None else []
+        hold = {holders[k] for k in fam if k in holders}
+        mut = set().union(*[mutable.get(k, set()) for k in fam]) if fam else set()
+        for n in ast.walk(f.node):
+            if isinstance(n, ast.Attribute) and dotted(n.value) == "self" and isinstance(n.ctx, ast.Load):
+                if n.attr in hold:
+                    return "%s reads the chart data it was given (self.%s), which is filled in after construction" % (f.qualname, n.attr)
+                if n.attr in mut:
+                    return "%s reads self.%s, which %s changes after construction" % (f.qualname, n.attr, "a mutator of the class")
+                for k in fam:
+                    g = k.methods.get(n.attr)
+                    if g is not None and g is not f:
+                        r = reads_content(g, seen, depth + 1)
+                        if r:
+                            return r
+            elif isinstance(n, ast.Name) and n.id == "self" and isinstance(n.ctx, ast.Load) and cls is not None and cls.module is dm:
+                pass
+        # iteration over self (`for s in self`) of a chart-data class reads its series
+        if cls is not None and cls.module is dm:
+            for n in ast.walk(f.node):
+                if isinstance(n, (ast.For, ast.comprehension)) and dotted(n.iter) == "self":
+                    for k in fam:
+                        for nm in ("__iter__", "__getitem__"):
+                            g = k.methods.get(nm)
+                            if g is not None:
+                                r = reads_content(g, seen, depth + 1)
+                                if r:
+                                    return r
+        return None
+
+    n_memo = 0
+    for m in mods:
+        for c in dict.values(m.classes):
+            for name, f in c.methods.items():
+                deco = _memoised(f)
+                if deco is None:
+                    continue
+                n_memo += 1
+                key = "%s.%s" % (c.name, name)
+                why = reads_content(f, set())
+                if why:
+                    ctx.violation("R8.8", key, "@%s keeps the first value of %s, but %s: once the chart data has changed (another series, other "
+                                  "categories, another chart) the memoised value is stale and workbook and chart XML disagree" % (deco, key, why),
+                                  file=f.file, line=f.line)
+                else:
+                    ctx.ok("R8.8", key, sample={"memoised": key, "reads": "no mutable chart-data content"})
+    ctx.count("memoised_in_chart_modules", n_memo)
+    ctx.ok("R8.8", "chart modules", sample={"modules": [m.name for m in mods], "memoised": n_memo})
